@@ -4,6 +4,7 @@ CONSTANTS
   MaxCalls = 5
   GEN = FALSE
   Rich = FALSE
+  MaxDev = 1
 INVARIANT MCInv
 INVARIANT Emit
 VIEW View
